@@ -188,6 +188,14 @@ Fixpoint loop (fuel : nat) (t : Q) (s : gst) : samp simout :=
 
 End Loop.
 
+(* the nodes a random start is drawn from: `list(G)`, or, when initial_recovereds is given (Gillespie_SIR only),
+   `[node for node in G if node not in set(initial_recovereds)]` -- graph order, membership test only *)
+Definition sample_pool (g : graph) (kind : model_kind) (r0 : option (list node)) : list node :=
+  match kind, r0 with
+  | SIR, Some l => filter (fun u => negb (mem u l)) (gnodes g)
+  | _, _ => gnodes g
+  end.
+
 (* initial_infecteds: None (sample by rho or one node) or the given collection *)
 Definition gillespie (g : graph) (kind : model_kind) (tau gamma : Q)
     (i0 : option (list node)) (r0 : option (list node)) (rho : option Q)
@@ -216,7 +224,7 @@ Definition gillespie (g : graph) (kind : model_kind) (tau gamma : Q)
     | None =>
       let n := match rho with None => 1%Z | Some r => round_half_even (Qnat (length (gnodes g)) * r) end in
       if (n <? 0)%Z then Fail ValueErr
-      else Sample (map knode (gnodes g)) (Z.to_nat n) (fun ks =>
+      else Sample (map knode (sample_pool g kind r0)) (Z.to_nat n) (fun ks =>
              with_i0 (concat ks))
     end
     end
